@@ -678,6 +678,13 @@ main(int argc, char *argv[])
 			k = a[3] == 2 ? a[4] * NSEQA + a[5] : nseq2 + (a[4] * NSEQA + a[5]) * NSEQA + b7[0];
 			return ex_replay_result(judge_seq(a[0], a[1], a[2], k, k + 1, 1), "sequence of %d durations rep=%s", a[3], held_name[a[0]]);
 		}
+		if (!strncmp(ex.cas, "SEQA ", 5) && sscanf(ex.cas + 5, "%d %d", a, a + 1) == 2 && a[0] >= 0 && a[0] < NSEQZT && a[1] >= 0 && a[1] < NSEQA * NSEQA) {
+			mk_seqs(0);
+			return ex_replay_result(judge_seq_args(a[0], a[1], 1), "dadd with two duration arguments");
+		}
+		if (!strcmp(ex.cas, "NEGEP")) {
+			return ex_replay_result(judge_stdin_negepoch(1), "negative epoch counts inside stdin lines");
+		}
 		if (!strncmp(ex.cas, "SDZ ", 4) && sscanf(ex.cas + 4, "%d", a) == 1 && a[0] >= 0 && a[0] < NSDZ) {
 			mk_seqs(0);
 			return ex_replay_result(judge_stdin_durs(a[0], 1), "durations on stdin with --from-zone %s", seq_zones[sdz[a[0]].zi]);
@@ -734,10 +741,10 @@ main(int argc, char *argv[])
 		"MIL: 911,280 days x {ymd,ywd,ymcw} x 4 checks; EPOCH: 911,280 days x {23:59:59 before, 00:00:00, 00:00:01} and %d days x 86,400 s, "
 		"2 inputs + 7 outputs each; CARRY: the same boundary days x the SEQ times of day x 7 representations x %d durations (N days +- {0,1s,1h,12h,86399s} "
 		"for N = -10..+10 in s, m, h where exact: every day-carry value -9..+9); ZEP: the SEQ zones x boundary days x 48 instants (every hour's first and last second), binaries on 3 instants of 6 days; SEQ: %d boundary days x %d times of day (00:00:00 00:00:01 00:59:59 01:00:00 12:00:00 22:00:00 23:00:00 23:59:59%s) "
-		"x 6 representations x all %d ordered pairs of the %d-duration alphabet (+1s -1s +2h -2h +90m -90m +24h -24h +48h -48h +1440m +86400s -86400s +0s +3600s +25h -25h)%s; "
+		"x 6 representations x all %d ordered pairs of the %d-duration alphabet (+1s -1s +2h -2h +90m -90m +24h -24h +48h -48h +1440m +86400s -86400s +0s +3600s +25h -25h and the unsigned 30m 2s 1h; the pairs ending in an unsigned spelling also through the dadd binary with arguments; negative epoch counts inside stdin lines at line start, behind a blank and behind a tab for -i %%s)%s; "
 		"--from-zone at library level: %d zones x 8 local times x all pairs; dadd binary: the same zones and times x the 33 pairs containing +24h x {--from-zone, --zone}; DIFF: (40 seam days x 7 times)^2 ordered pairs x 6 representations, and 911,280 days x 4 neighbour pairs x 3",
 		nbday, NDUR, nbday, ncdur, nbday, nseq_tods, ex.thorough ? " and every full minute" : "", nseq2, NSEQA,
-		ex.thorough ? ", and all 4,913 ordered triples on the first 6 boundary days" : "", ex.thorough ? NSEQZ : NSEQZ_QUICK);
+		ex.thorough ? ", and all 4,913 ordered triples of its 17 signed spellings on the first 6 boundary days" : "", ex.thorough ? NSEQZ : NSEQZ_QUICK);
 	ex_meta("binding", "dadd / dconv -f %%s / ddiff -f %%S binaries of the same build, one process per run on the 86,400 seconds of a boundary day "
 		"from stdin (%d runs), byte-compared with the library-level observation", ex.thorough ? NBIND : NBIND_QUICK);
 
@@ -811,6 +818,27 @@ main(int argc, char *argv[])
 			ex_sample("SEQ zone %s local time second %d: all %d pairs after --from-zone, dadd binary on the pairs with +24h", seq_zones[zi],
 				  seq_ztod[ti], nseq2);
 		}
+	}
+	/* dadd in argument mode on the pairs whose second element is spelt without a sign; slice = time of day */
+	for (int ti = 0; ti < NSEQZT; ti++, slice++) {
+		if (!ex_mine(slice) || ex_expired()) {
+			continue;
+		}
+		for (int k = 0; k < nseq2; k++) {
+			if (SEQ_UNSIGNED_P(seqs[k].idx[1])) {
+				judge_seq_args(ti, k, 0);
+			}
+		}
+		++*c_traces;
+	}
+	/* negative epoch counts inside stdin lines */
+	if (ex_mine(slice++) && !ex_expired()) {
+		struct itimerval zt = {{0, 0}, {0, 0}}, on;
+		getitimer(ITIMER_REAL, &on);
+		setitimer(ITIMER_REAL, &zt, NULL);
+		judge_stdin_negepoch(0);
+		on.it_value = on.it_interval;
+		setitimer(ITIMER_REAL, &on, NULL);
 	}
 	/* durations on stdin with --from-zone; slice = case */
 	for (int k = 0; k < NSDZ; k++, slice++) {
